@@ -56,6 +56,9 @@ func (c *Ctx) genHistory(n int, uris []string) []POp {
 			// open): nothing may reach the downstream server for a file it has closed
 			ops = append(ops, POp{Op: "change", URI: u, Text: txt, Version: d.version + 1})
 		case !d.open:
+			if d.version > 0 && c.R.Intn(2) == 0 {
+				d.version = 0 // editors restart the version counter when a file is opened again
+			}
 			d.open, d.version, d.text = true, d.version+1, txt
 			ops = append(ops, POp{Op: "open", URI: u, Text: txt, Version: d.version})
 		case k < 5:
@@ -73,7 +76,9 @@ func (c *Ctx) genHistory(n int, uris []string) []POp {
 			d.open = false
 			ops = append(ops, POp{Op: "close", URI: u})
 		default:
-			d.version++
+			if c.R.Intn(3) > 0 {
+				d.version++ // (now and then a client sends the same version again, or always 0: versions are passed on, not judged)
+			}
 			d.text = txt
 			ops = append(ops, POp{Op: "change", URI: u, Text: txt, Version: d.version})
 		}
